@@ -154,41 +154,73 @@ func init() {
 		mkDHCP4(1, macA, relayGi, hx("52 01 01")), mkDHCP4(1, macA, relayGi, hx("52 02 01 ff")), mkDHCP4(1, macA, relayGi, hx("52 02 01 00")),
 		mkDHCP4(3, macA, relayGi, hx("52 03 01 05 41")), mkDHCP4(3, macA, relayGi, hx("52 00")), mkDHCP4(3, macA, noGi, hx("32 00")), mkDHCP4(4, macA, noGi, hx("32 01 0a")),
 	}
+	// dhcp4-handler — case layout: [0] fixed prelude selector (see dhcp4Prelude), [1] 0 = that prelude, otherwise
+	// [2..3] describe a generated history (d4Shape), rest = raw UDP payload.
 	register(&target{
-		name: "dhcp4-handler",
+		name: "dhcp4-handler", nsel: d4Sel,
 		run: func(data []byte, c *caseInfo) {
-			sel, raw := split(data, 1)
-			s, conn := newDHCP4()
-			dhcp4Prelude(s, conn, sel[0])
-			if s.VerifC09LeaseCount() > 0 {
-				c.class("state:lease-held")
-			} else {
-				c.class("state:no-lease")
+			sel, raw := split(data, d4Sel)
+			var s *dhcp.Server
+			var conn *sinkConn
+			final := func() {
+				if s.VerifC09LeaseCount() > 0 {
+					c.class("state:lease-held")
+				} else {
+					c.class("state:no-lease")
+				}
+				req, err := dhcpv4.FromBytes(raw)
+				if err != nil {
+					c.class("frombytes-error")
+					return
+				}
+				c.nt = true
+				c.class("passes-first-length-check")
+				c.class("msg:" + req.MessageType().String())
+				if o := req.Options.Get(dhcpv4.OptionRelayAgentInformation); len(o) > 0 {
+					c.class("has-option-82")
+				}
+				_ = dhcp.VerifC09ParseOption82(req)
+				s.VerifC09Handle(conn, dhcpPeer, req)
+				if s.VerifC09LeaseCount() > 0 {
+					c.class("after:lease-held")
+				}
 			}
-			req, err := dhcpv4.FromBytes(raw)
-			if err != nil {
-				c.class("frombytes-error")
+			if sel[1] != 0 {
+				c.class("prefix:generated")
+				sh := d4Shape{sel[2], sel[3]}
+				lease := time.Hour
+				if sh.b&0x20 != 0 {
+					lease = time.Minute
+					c.class("history:short-lease-time")
+				}
+				if sh.a&1 != 0 {
+					c.class("history:pool-of-two")
+				}
+				body := func() {
+					s, conn = newDHCP4Cfg(sh.a&1 != 0, lease)
+					dhcp4History(s, conn, sh, lease, c)
+					final()
+				}
+				if sh.b>>3&3 != 0 {
+					inBubble(body) // virtual time
+				} else {
+					body()
+				}
 				return
 			}
-			c.nt = true
-			c.class("passes-first-length-check")
-			c.class("msg:" + req.MessageType().String())
-			if o := req.Options.Get(dhcpv4.OptionRelayAgentInformation); len(o) > 0 {
-				c.class("has-option-82")
-			}
-			_ = dhcp.VerifC09ParseOption82(req)
-			s.VerifC09Handle(conn, dhcpPeer, req)
-			if s.VerifC09LeaseCount() > 0 {
-				c.class("after:lease-held")
-			}
+			c.class("prefix:fixed")
+			s, conn = newDHCP4()
+			dhcp4Prelude(s, conn, sel[0])
+			final()
 		},
 		gen: func(rt *rapid.T) []byte {
-			return withSel(genPacket(rt, bldDHCP4, consts), selByte(rt, 3, "prelude"))
+			return withSel(genPacket(rt, bldDHCP4, consts), append([]byte{selByte(rt, 3, "prelude")}, genD4Shape(rt)...)...)
 		},
 		seeds: func() [][]byte {
 			var o [][]byte
 			for _, k := range consts {
-				o = append(o, withSel(k, 0), withSel(k, 1), withSel(k, 2))
+				o = append(o, withSel(k, 0, 0, 0, 0), withSel(k, 1, 0, 0, 0), withSel(k, 2, 0, 0, 0),
+					withSel(k, 0, 1, 0x44, 0x00), withSel(k, 0, 1, 0x4d, 0x17), withSel(k, 0, 1, 0xa6, 0x0a))
 			}
 			return o
 		},
@@ -275,6 +307,8 @@ func init() {
 		},
 	})
 }
+
+const d4Sel = 4
 
 func TestPropDHCPv4Handler(t *testing.T) { runProp(t, 3000, 60000, "dhcp4-handler") }
 func TestPropDHCPv4Opt82(t *testing.T)   { runProp(t, 3000, 60000, "dhcp4-opt82") }
